@@ -25,10 +25,17 @@ RULE = ("random table pairs (0-8 rows, 0-3 payload columns, 1-3 key columns over
         "agree on a proper, non-empty subset of components.")
 EXHAUSTIVE = {"quick": False, "thorough": False}
 DESIGN_REF = "DESIGN.md section 4, C09 / C10 / C11"
+LEVEL_TEXT = ("theorems (all tables, any number of key columns, == an equivalence): the hash index returns the "
+              "ascending matching right rows; inner_join's table holds exactly the nested-loop row pairs, left "
+              "cells then right cells, names left ++ right; the specification determines the result uniquely")
+LEVEL_NOTE = ("Trusted: Coq 8.16.1 kernel and vm_compute; the hand-written model Model/Join.v (tied to table.py by "
+              "the correspondence check on the generated table pairs only); the dict-as-association-list assumption "
+              "(hash-seed independence is tested under 3 seeds, not proved); the harness. Result schemas and 'inputs "
+              "unchanged' are checked by the oracle, not proved.")
 
 
 def streams(rng, tier):
-    nrand, nsmall, nstr, nref = (700, 500, 250, 120) if tier == "quick" else (3000, 1500, 1500, 300)
+    nrand, nsmall, nstr, nref = (1200, 800, 400, 150) if tier == "quick" else (7000, 3000, 3000, 400)
     out = []
     rand = []
     for _ in range(nrand):
